@@ -1,5 +1,6 @@
 import GridVerif.Props.C10
 import GridVerif.Props.C10.Gen
+import GridVerif.Props.C10.Ctor
 
 #print axioms GridVerif.C10.inv_init
 #print axioms GridVerif.C10.inv_step
@@ -32,3 +33,9 @@ import GridVerif.Props.C10.Gen
 #print axioms GridVerif.C10.genRun_eq_run
 #print axioms GridVerif.C10.gen_inv_step
 #print axioms GridVerif.C10.gen_localgrid_correct
+#print axioms GridVerif.C10.gen_grid_init_spec
+#print axioms GridVerif.C10.gen_localgrid_init_spec
+#print axioms GridVerif.C10.gen_grid_init_eq
+#print axioms GridVerif.C10.gen_localgrid_of_query
+#print axioms GridVerif.C10.gen_localgrid_of_query_inf
+#print axioms GridVerif.C10.gen_tree_args_exact
